@@ -16,6 +16,6 @@ lake build HpackVerif.Props.SrcEnc || echo "setup: source tie (Props.SrcEnc) una
 lake build HpackVerif.Props.SrcEncApi || echo "setup: source tie (Props.SrcEncApi) unavailable on this tree"
 lake build HpackVerif.Props.SrcHuffEnc || echo "setup: source tie (Props.SrcHuffEnc) unavailable on this tree"
 lake build HpackVerif.Props.SrcTable || echo "setup: source tie (Props.SrcTable) unavailable on this tree"
-for m in SrcConn OnSourceInt OnSourceHuff OnSourceDec OnSourceTable OnSourceEnc; do lake build HpackVerif.Props.$m || echo "setup: source-level corollaries (Props.$m) unavailable on this tree"; done
+for m in SrcConn OnSourceInt OnSourceHuff OnSourceDec OnSourceTable OnSourceEnc OnSourceEncApi; do lake build HpackVerif.Props.$m || echo "setup: source-level corollaries (Props.$m) unavailable on this tree"; done
 lake env lean Audit.lean > .lake/audit_setup.txt 2>&1 || true
 echo "setup: $(grep -c AUDIT .lake/audit_setup.txt) theorems audited"
